@@ -38,6 +38,12 @@ def specs(tier, seed):
                 for sc in scheds[:3] if tier == 'quick' else scheds:
                     n += 1
                     S.append(sim.spec(topo, schedule=_fix(sc, 2 if topo != 'T5' else 3), opt=opt, tag=':opt%d' % n))
+    # boundary values of the motor data: no-load current exactly 0 A with the supply cut from the first instant (by a timer
+    # rule / by the user), later, and never
+    S.append(sim.spec('T12', schedule=(('run', 2), ('run', 2)), control=('const', ((0.0, 10.0, 0.0),)), tag=':i0_zero_cut_from_start'))
+    S.append(sim.spec('T12', schedule=(('run', 3),), control=('fixed', 0.0), tag=':i0_zero_duty_zero'))
+    S.append(sim.spec('T12', schedule=(('run', 3),), control=('const', ((0.2, 10.0, 0.0),)), tag=':i0_zero_cut_later'))
+    S.append(sim.spec('T12', schedule=(('run', 2),), control=('arb', -1, 1), tag=':i0_zero_arbitrary_duty'))
     if tier == 'thorough':
         full = (('module', 1.0), ('face_width', 8.0), ('elastic_modulus', 200.0))
         S.append(sim.spec('T6', schedule=(('run', 3),), tag=':full',
@@ -69,7 +75,7 @@ BOUNDS = {
     'quick': 'spur pair (T1) and helical pair (T2): every subset of {module, face width, elastic modulus} on both gears '
              '(64 each; modules equal when both present); worm->wheel (T3/T4) and wheel->worm (T5): worm with/without '
              'reference diameter x wheel with every subset of {module, face width} (8 each); motor with and without '
-             'currents; schedules run(2), run(2)+run(2), run(2)+reset+rerun, early stop; K=2; magnitudes of the '
+             'currents, and with a no-load current of exactly 0 A (T12) with the supply cut from the first instant, later, never and arbitrarily; schedules run(2), run(2)+run(2), run(2)+reset+rerun, early stop; K=2; magnitudes of the '
              'optional data concrete, initial state and loads symbolic; real snapshot() and export_time_variables() '
              'are called on the concrete replay of sampled paths',
     'thorough': 'quick + T6/T7 with data on every gear, K=3, all schedules on every configuration',
